@@ -67,6 +67,8 @@ var e2Assumptions = []string{
 }
 
 var props = map[string]prop{
+	"C14": e1prop("C14", 240, 6000, e1Case+"probe profile: on private forks of reachable states an output is created that is guarded by a tape-drawn policy tree (above / after around the fork's height and median time, public keys the spender holds or not, hash locks with known or unknown preimages, nested thresholds, opaque branches, legacy unlock conditions with ed25519 / unknown-algorithm / entropy keys and a timelock around the height); it is then spent six times with tape-drawn presentations (exactly / fewer / more branches revealed than required, others opaque) and witness assignments (honest, one signature or preimage bit flipped, missing, surplus, swapped, signed by a foreign key). Oracle: RefPolicy (evaluator written from the policy's meaning): SpendPolicy.Verify and ValidateBlock (a block spending the output, everything else valid) must agree with it; Address must not change when any subset of branches (incl. a legacy-conditions branch) is made opaque; policies whose sub-policy count exceeds the protocol limit only across sibling thresholds must be rejected.",
+		"probe.P2-verify-compared", "probe.P2-satisfied", "probe.P2-policy-in-block.offered", "probe.P2-address-checked", "probe.P2-size-limit"),
 	"C17": {
 		Parts:          []part{{Engine: "E2", Pkg: "sess", Profile: "C17", QuickRuns: 3000, QuickBudgetS: 60, ThoroughRuns: 150000, ThoroughBudgetS: 1200}},
 		Rule:           "one case = one seeded contract life between a renter task and a host task over the simulated connection (real RHP4 request objects and codec, tape-chosen chunking, stalls and truncation): formation, then 3-10 operations out of {append (incl. exactly the free capacity, large batches), free, sector roots, fund accounts (fraction / exactly the remaining allowance / one hasting more), replenish, renew, refresh with full and with partial rollover, expired prices, badly signed prices} with a tape-drawn price table (zero, tiny and large prices), allowances and collateral at, below and above what is left. Both parties run the real Validate methods, constructors and cost functions; the host funds, signs, validates (ValidateV2Transaction) and mines every resulting transaction on a private chain running the real consensus code. Oracle: big-integer accounting from the property's identities (total kept; renter charged exactly the reported usage; missed host value lowered by exactly the reported collateral and never raised; total collateral untouched; failure exactly when funds do not cover the cost; renewal/refresh split the old value exactly, roll over no more than the new contract costs, and reported costs + rollover = new contract + tax + fee), acceptance by consensus, and agreement of the two parties (host signature verifies against the renter's own result). A v1 variant drives rhp/v2 and rhp/v3 formation, payment revisions and renewals through ValidateTransaction. Non-trivial = at least one constructed transaction was mined.",
